@@ -31,17 +31,17 @@ Section Steps.
   Definition krel (k : kontc R) (k' : kont R) : Prop := forall p s c, snd (k p s c) = k' p s c.
 
   Lemma star_loop_result :
-    forall (body : nat -> list ch -> caps -> kontc R -> nat * option R)
-           (body' : nat -> list ch -> caps -> kont R -> option R) g k k',
+    forall (body : N -> list ch -> caps -> kontc R -> nat * option R)
+           (body' : N -> list ch -> caps -> kont R -> option R) g k k',
       (forall p s c K K', krel K K' -> snd (body p s c K) = body' p s c K') ->
       krel k k' ->
       forall n p s c, snd (star_loopc body g k n p s c) = star_loop body' g k' n p s c.
   Proof.
     intros body body' g k k' Hb Hk. induction n as [|n IH]; intros p s c; cbn [star_loopc star_loop].
     - rewrite snd_tick. apply Hk.
-    - assert (HK : krel (fun p' s' c' => if p <? p' then star_loopc body g k n p' s' c' else (0, None))
-                        (fun p' s' c' => if p <? p' then star_loop body' g k' n p' s' c' else None)).
-      { intros p' s' c'. destruct (p <? p'); simpl; auto. }
+    - assert (HK : krel (fun p' s' c' => if N.ltb p p' then star_loopc body g k n p' s' c' else (0, None))
+                        (fun p' s' c' => if N.ltb p p' then star_loop body' g k' n p' s' c' else None)).
+      { intros p' s' c'. destruct (N.ltb p p'); simpl; auto. }
       destruct g; rewrite snd_tick, orelse_snd.
       + rewrite (Hb p s c _ _ HK). rewrite Hk. reflexivity.
       + rewrite Hk. rewrite (Hb p s c _ _ HK). reflexivity.
@@ -52,7 +52,7 @@ Section Steps.
     induction r as [| cl | | | a IHa b IHb | a IHa b IHb | g a IHa | g a IHa | i a IHa]; intros p s c k k' Hk; cbn [mc m].
     - rewrite snd_tick. apply Hk.
     - destruct s as [|x s']; [reflexivity|]. destruct (cls_match ic cl x); [|reflexivity]. rewrite snd_tick. apply Hk.
-    - destruct (p =? 0); [|reflexivity]. rewrite snd_tick. apply Hk.
+    - destruct (N.eqb p 0); [|reflexivity]. rewrite snd_tick. apply Hk.
     - destruct s as [|x [|y s']]; [rewrite snd_tick; apply Hk| |reflexivity].
       destruct (is_nl x); [|reflexivity]. rewrite snd_tick. apply Hk.
     - rewrite snd_tick. apply IHa. intros p' s' c'. apply IHb. exact Hk.
@@ -74,7 +74,7 @@ Section Steps.
   Lemma mc_chr : forall cl p s c (k : kontc R),
       mc ic (RChr cl) p s c k =
       match s with
-      | x :: s' => if cls_match ic cl x then tick (k (S p) s' c) else (1, None)
+      | x :: s' => if cls_match ic cl x then tick (k (N.succ p) s' c) else (1, None)
       | [] => (1, None)
       end.
   Proof. reflexivity. Qed.
@@ -94,13 +94,13 @@ Section Steps.
       replace ((S n + 1) * (K + 2)) with ((n + 1) * (K + 2) + (K + 2)) by ring.
       assert (Hkk : fst (k p s c) <= K) by (apply Hk; lia).
       assert (Hagain : fst (mc ic (RChr cl) p s c
-                 (fun p' s' c' => if p <? p' then star_loopc (mc ic (RChr cl)) g k n p' s' c' else (0, None)))
+                 (fun p' s' c' => if N.ltb p p' then star_loopc (mc ic (RChr cl)) g k n p' s' c' else (0, None)))
                <= 1 + (n + 1) * (K + 2)).
       { rewrite mc_chr. destruct s as [|x s']; [simpl; lia|].
         destruct (cls_match ic cl x); [|simpl; lia].
-        assert (E : (p <? S p) = true) by (apply Nat.ltb_lt; lia). rewrite E. rewrite fst_tick.
+        assert (E : N.ltb p (N.succ p) = true) by (apply N.ltb_lt; lia). rewrite E. rewrite fst_tick.
         assert (H' : kbound k (List.length s') K) by (eapply kbound_le; [exact Hk|simpl; lia]).
-        assert (H := IH (S p) s' c H'). lia. }
+        assert (H := IH (N.succ p) s' c H'). lia. }
       destruct g; rewrite fst_tick.
       + match goal with |- S (fst (orelse ?x ?y)) <= _ => pose proof (orelse_cost x y) as Ho end.
         cbv beta in Ho. lia.
@@ -117,8 +117,8 @@ Section Steps.
       intros Hp n K p s c k Hn Hk; simpl in Hp.
     - cbn [mc bound]. rewrite fst_tick. specialize (Hk p s c (le_n _)). lia.
     - cbn [mc bound]. destruct s as [|x s']; [simpl; lia|]. destruct (cls_match ic cl x); [|simpl; lia].
-      rewrite fst_tick. assert (H : fst (k (S p) s' c) <= K) by (apply Hk; simpl; lia). lia.
-    - cbn [mc bound]. destruct (p =? 0); [|simpl; lia]. rewrite fst_tick. specialize (Hk p s c (le_n _)). lia.
+      rewrite fst_tick. assert (H : fst (k (N.succ p) s' c) <= K) by (apply Hk; simpl; lia). lia.
+    - cbn [mc bound]. destruct (N.eqb p 0); [|simpl; lia]. rewrite fst_tick. specialize (Hk p s c (le_n _)). lia.
     - cbn [mc bound]. destruct s as [|x [|y s']]; [| |simpl; lia].
       + rewrite fst_tick. specialize (Hk p [] c (le_n _)). lia.
       + destruct (is_nl x); [|simpl; lia]. rewrite fst_tick. specialize (Hk p [x] c (le_n _)). lia.
@@ -143,8 +143,8 @@ End Steps.
 
 (* ---------------- the parsers' entry points ---------------- *)
 (* pattern.match(subject), counting steps *)
-Definition re_match_c (ic : bool) (r : re) (s : list ch) : nat * option (nat * caps) :=
-  mc ic r 0 s [] (fun p _ c => (0, Some (p, c))).
+Definition re_match_c (ic : bool) (r : re) (s : list ch) : nat * option (N * caps) :=
+  mc ic r 0%N s [] (fun p _ c => (0, Some (p, c))).
 
 Lemma re_match_c_result : forall ic r s, snd (re_match_c ic r s) = re_match ic r s.
 Proof. intros. unfold re_match_c, re_match. apply mc_result. intros p s' c. reflexivity. Qed.
@@ -156,9 +156,9 @@ Proof.
 Qed.
 
 (* pattern.search / pattern.sub try the match at every start position: steps of all the attempts together *)
-Fixpoint re_scan_c (ic : bool) (r : re) (p : nat) (s : list ch) : nat :=
+Fixpoint re_scan_c (ic : bool) (r : re) (p : N) (s : list ch) : nat :=
   fst (mc ic r p s [] (fun e _ c => (0, Some (e, c))))
-  + match s with [] => 0 | _ :: s' => re_scan_c ic r (S p) s' end.
+  + match s with [] => 0 | _ :: s' => re_scan_c ic r (N.succ p) s' end.
 
 Lemma poly1_scan_bounded :
   forall ic r, poly1 r = true ->
@@ -172,7 +172,7 @@ Proof.
   - cbn [re_scan_c]. simpl in Hn.
     assert (H' : fst (mc ic r p (x :: s) [] (fun e _ c => (0, Some (e, c)))) <= bound r n 0).
     { apply mc_bound; auto. intros p' s' c' _; simpl; lia. }
-    assert (H2 := IH (S p)). assert (Hs : List.length s <= n) by lia. specialize (H2 Hs).
+    assert (H2 := IH (N.succ p)). assert (Hs : List.length s <= n) by lia. specialize (H2 Hs).
     simpl List.length. lia.
 Qed.
 
@@ -259,7 +259,7 @@ Definition re_word_colon : re :=
        (RSeq (RStar true (RChr (CSet false [ICat CSpace false]))) (RChr (CSet false [ILit 58%N]))).
 Example word_colon_accepted :
   poly1 re_word_colon = true /\
-  re_match false re_word_colon (str_ch "name  : x") = Some (7, [(1, (0, 4))]) /\
+  re_match false re_word_colon (str_ch "name  : x") = Some (7%N, [(1, (0%N, 4%N))]) /\
   fst (re_match_c false re_word_colon (str_ch "name  : x")) <= bound re_word_colon 9 0.
 Proof. split; [reflexivity|split; [vm_compute; reflexivity|apply poly1_match_bounded; reflexivity]]. Qed.
 
@@ -272,3 +272,124 @@ Example nested_quantifier_doubles :
   (2 * fst (re_match_c false re_m4_type (xs 8)) <=? fst (re_match_c false re_m4_type (xs 9))) = true /\
   (2 * fst (re_match_c false re_m4_type (xs 12)) <=? fst (re_match_c false re_m4_type (xs 13))) = true.
 Proof. repeat split; vm_compute; reflexivity. Qed.
+
+(* ---------------- the quantifier's counter is not a cut-off ----------------
+   [star_loop] counts its iterations down from the number of characters left.  The matcher consults its continuation
+   only at positions that lie forward in the subject (fwd), a successful iteration that moved the position has
+   shortened the text, so the counter never reaches 0 while an iteration could still consume something: any
+   larger counter gives the same result.  The matcher is therefore the fuel-free backtracking matcher. *)
+Section Forward.
+  Variable ic : bool.
+  Variable R : Type.
+
+  (* from position p with s left to position p' with s' left: forward, and as many characters gone as positions *)
+  Definition fwd (p : N) (s : list ch) (p' : N) (s' : list ch) : Prop :=
+    (p <= p')%N /\ (N.of_nat (List.length s') + (p' - p) = N.of_nat (List.length s))%N.
+
+  Lemma fwd_refl : forall p s, fwd p s p s.
+  Proof. intros p s. unfold fwd. lia. Qed.
+
+  Lemma fwd_trans : forall p s p1 s1 p2 s2, fwd p s p1 s1 -> fwd p1 s1 p2 s2 -> fwd p s p2 s2.
+  Proof. unfold fwd. intros. lia. Qed.
+
+  Lemma fwd_cons : forall p x s, fwd p (x :: s) (N.succ p) s.
+  Proof. intros p x s. unfold fwd. simpl List.length. lia. Qed.
+
+  Definition kagree (p : N) (s : list ch) (k1 k2 : kont R) : Prop :=
+    forall p' s' c', fwd p s p' s' -> k1 p' s' c' = k2 p' s' c'.
+
+  Lemma kagree_fwd : forall p s p' s' k1 k2, kagree p s k1 k2 -> fwd p s p' s' -> kagree p' s' k1 k2.
+  Proof. intros p s p' s' k1 k2 H F p2 s2 c2 F2. apply H. eapply fwd_trans; eauto. Qed.
+
+  Lemma star_loop_agree :
+    forall (body : N -> list ch -> caps -> kont R -> option R) g k1 k2,
+      (forall p s c K1 K2, kagree p s K1 K2 -> body p s c K1 = body p s c K2) ->
+      forall n p s c, kagree p s k1 k2 -> star_loop body g k1 n p s c = star_loop body g k2 n p s c.
+  Proof.
+    intros body g k1 k2 Hb. induction n as [|n IH]; intros p s c Hk; cbn [star_loop].
+    - apply Hk. apply fwd_refl.
+    - assert (E : body p s c (fun p' s' c' => if N.ltb p p' then star_loop body g k1 n p' s' c' else None)
+                = body p s c (fun p' s' c' => if N.ltb p p' then star_loop body g k2 n p' s' c' else None)).
+      { apply Hb. intros p' s' c' F. destruct (N.ltb p p'); [|reflexivity].
+        apply IH. eapply kagree_fwd; eauto. }
+      rewrite E. rewrite (Hk p s c (fwd_refl p s)). reflexivity.
+  Qed.
+
+  Lemma m_agree : forall r p s c k1 k2, kagree p s k1 k2 -> m ic r p s c k1 = m ic r p s c k2.
+  Proof.
+    induction r as [| cl | | | a IHa b IHb | a IHa b IHb | g a IHa | g a IHa | i a IHa]; intros p s c k1 k2 Hk; cbn [m].
+    - apply Hk. apply fwd_refl.
+    - destruct s as [|x s']; [reflexivity|]. destruct (cls_match ic cl x); [|reflexivity].
+      apply Hk. apply fwd_cons.
+    - destruct (N.eqb p 0); [|reflexivity]. apply Hk. apply fwd_refl.
+    - destruct s as [|x [|y s']]; [apply Hk; apply fwd_refl| |reflexivity].
+      destruct (is_nl x); [|reflexivity]. apply Hk. apply fwd_refl.
+    - apply IHa. intros p' s' c' F. apply IHb. eapply kagree_fwd; eauto.
+    - rewrite (IHa p s c k1 k2 Hk), (IHb p s c k1 k2 Hk). reflexivity.
+    - destruct g; rewrite (IHa p s c k1 k2 Hk), (Hk p s c (fwd_refl p s)); reflexivity.
+    - apply star_loop_agree; [|exact Hk]. intros p0 s0 c0 K1 K2 HK. apply IHa. exact HK.
+    - apply IHa. intros p' s' c' F. apply Hk. exact F.
+  Qed.
+
+  (* a match succeeds only through its continuation *)
+  Lemma star_loop_none :
+    forall (body : N -> list ch -> caps -> kont R -> option R) g (k : kont R),
+      (forall p s c K, (forall p' s' c', K p' s' c' = None) -> body p s c K = None) ->
+      (forall p s c, k p s c = None) ->
+      forall n p s c, star_loop body g k n p s c = None.
+  Proof.
+    intros body g k Hb Hk. induction n as [|n IH]; intros p s c; cbn [star_loop]; [apply Hk|].
+    rewrite Hk. rewrite Hb; [destruct g; reflexivity|].
+    intros p' s' c'. destruct (N.ltb p p'); [apply IH|reflexivity].
+  Qed.
+
+  Lemma m_none : forall r p s c (k : kont R), (forall p' s' c', k p' s' c' = None) -> m ic r p s c k = None.
+  Proof.
+    induction r as [| cl | | | a IHa b IHb | a IHa b IHb | g a IHa | g a IHa | i a IHa]; intros p s c k Hk; cbn [m].
+    - apply Hk.
+    - destruct s as [|x s']; [reflexivity|]. destruct (cls_match ic cl x); [apply Hk|reflexivity].
+    - destruct (N.eqb p 0); [apply Hk|reflexivity].
+    - destruct s as [|x [|y s']]; [apply Hk| |reflexivity]. destruct (is_nl x); [apply Hk|reflexivity].
+    - apply IHa. intros p' s' c'. apply IHb. exact Hk.
+    - rewrite (IHa p s c k Hk). apply IHb. exact Hk.
+    - destruct g; rewrite (IHa p s c k Hk), Hk; reflexivity.
+    - apply star_loop_none; [|exact Hk]. intros p0 s0 c0 K HK. apply IHa. exact HK.
+    - apply IHa. intros p' s' c'. apply Hk.
+  Qed.
+
+  (* any counter that is at least the number of characters left gives the same result *)
+  Lemma star_loop_counter :
+    forall a g (k : kont R) n n' p s c,
+      List.length s <= n -> List.length s <= n' ->
+      star_loop (m ic a) g k n p s c = star_loop (m ic a) g k n' p s c.
+  Proof.
+    intros a g k. induction n as [|n IH]; intros n' p s c Hn Hn'.
+    - (* nothing left: an iteration cannot move the position, so it fails *)
+      assert (s = []) by (destruct s; [reflexivity|simpl in Hn; lia]). subst s.
+      destruct n' as [|n']; [reflexivity|]. cbn [star_loop].
+      assert (E : m ic a p [] c (fun p' s' c' => if N.ltb p p' then star_loop (m ic a) g k n' p' s' c' else None) = None).
+      { rewrite (m_agree a p [] c _ (fun _ _ _ => None)); [apply m_none; reflexivity|].
+        intros p' s' c' [F1 F2]. simpl in F2.
+        assert (Hlt : N.ltb p p' = false) by (apply N.ltb_ge; lia). rewrite Hlt. reflexivity. }
+      rewrite E. destruct g; [reflexivity|]. destruct (k p [] c); reflexivity.
+    - destruct n' as [|n'].
+      + assert (s = []) by (destruct s; [reflexivity|simpl in Hn'; lia]). subst s.
+        cbn [star_loop].
+        assert (E : m ic a p [] c (fun p' s' c' => if N.ltb p p' then star_loop (m ic a) g k n p' s' c' else None) = None).
+        { rewrite (m_agree a p [] c _ (fun _ _ _ => None)); [apply m_none; reflexivity|].
+          intros p' s' c' [F1 F2]. simpl in F2.
+          assert (Hlt : N.ltb p p' = false) by (apply N.ltb_ge; lia). rewrite Hlt. reflexivity. }
+        rewrite E. destruct g; [reflexivity|]. destruct (k p [] c); reflexivity.
+      + cbn [star_loop].
+        assert (E : m ic a p s c (fun p' s' c' => if N.ltb p p' then star_loop (m ic a) g k n p' s' c' else None)
+                  = m ic a p s c (fun p' s' c' => if N.ltb p p' then star_loop (m ic a) g k n' p' s' c' else None)).
+        { apply m_agree. intros p' s' c' [F1 F2]. destruct (N.ltb p p') eqn:L; [|reflexivity].
+          apply N.ltb_lt in L. apply IH; lia. }
+        rewrite E. reflexivity.
+  Qed.
+
+  Theorem star_counter_irrelevant :
+    forall g a p s c (k : kont R) n, List.length s <= n ->
+      m ic (RStar g a) p s c k = star_loop (m ic a) g k n p s c.
+  Proof. intros. cbn [m]. apply star_loop_counter; auto. Qed.
+End Forward.
